@@ -146,9 +146,12 @@ struct CacheRun {
                 const U16 mark = strOf((int)(R.uarg("v") % 12) + 1); g->assign(mark.data(), (XalanDOMString::size_type)mark.size());
             }
         } else if (o == "release") {
-            if (out.empty()) return skip(); const size_t i = R.uarg("i") % out.size(); XalanDOMString* g = out[i]; bool ok = false;
+            if (out.empty()) return skip(); const size_t i = R.uarg("i") % out.size(); XalanDOMString* g = out[i]; bool ok = false; const uint64_t refused0 = R.mm.refused;
             R.call([&] { ok = c->release(g); });
-            if (!R.threw) { if (!ok) R.bad("release", "release() returned false"); if (!g->empty()) R.bad("reset", "released object was not cleared"); out.erase(out.begin() + i); avail.push_back(g); }
+            // release() is called from destructors and must not throw: when its list cannot grow it destroys the instance instead of remembering it
+            if (!R.threw && R.mm.refused > refused0) { if (!ok) R.bad("release", "release() returned false"); out.erase(out.begin() + i); R.res.count("probe:cache-release-with-refused-allocation"); }
+            else if (!R.threw) { if (!ok) R.bad("release", "release() returned false"); if (!g->empty()) R.bad("reset", "released object was not cleared"); out.erase(out.begin() + i); avail.push_back(g); }
+            else R.bad("release-threw", "release() let an exception out; it is called from destructors");
         } else if (o == "reset") { R.call([&] { c->reset(); }); }
         else { R.kind = "unknown-op"; return skip(); }
         R.finishOp(out.size(), (uint64_t)avail.size() * 131 + created);
